@@ -13,7 +13,8 @@
      Start / Shutdown (res)
      Dispatch      k, id, dst, item; res "returned" / "blocked" (the loop waits in
                    the channel send); cl: the dispatcher closed the connection;
-                   woke: parked receivers that returned, with what
+                   woke: parked receivers that returned, with what (got, ok, laddr);
+                   err: anything else the harness could not make sense of (must be empty)
      Recv          k, id, pfx; got: item number, 0 = parked, -1 = error;
                    laddr: abstract LocalAddr of what was received; bodyok
                    cdone: pending Close calls that returned, with their result
@@ -62,7 +63,8 @@ ObsOK(e) ==
              /\ (ep \in parked') = o.parked
              /\ (ep \in cpend') = o.cpend
     /\ \A x \in Ids \X Kinds : hold'[x] = HoldOf(e, x)
-WokeOK(e) == last'.woke = {<<<<w.id, w.pfx, w.k>>, w.got>> : w \in SetOf(e.woke)}
+WokeOK(e) == /\ last'.woke = {<<<<w.id, w.pfx, w.k>>, w.got>> : w \in SetOf(e.woke)}
+             /\ \A w \in SetOf(e.woke) : w.got > 0 => (w.ok /\ w.laddr = item'[w.got].dst)
 
 TraceAdd == /\ Consume("Add")
             /\ IF E.res = "ok" THEN AddOK(E.id, E.ifn, E.port)
@@ -82,7 +84,7 @@ TraceDispatch ==
     /\ Len(item') = E.item
     /\ item'[E.item].cl = E.cl
     /\ (E.res = "blocked") = (item'[E.item].st = "held")
-    /\ WokeOK(E) /\ ObsOK(E) /\ Mark
+    /\ WokeOK(E) /\ ObsOK(E) /\ E.err = "" /\ Mark
 
 TraceRecv ==
     /\ Consume("Recv") /\ Recv(E.k, E.id, E.pfx)
@@ -90,16 +92,16 @@ TraceRecv ==
     /\ (E.got > 0 => E.laddr = item[E.got].dst /\ E.bodyok)
     /\ {<<c.id, c.pfx, c.k>> : c \in SetOf(E.cdone)} = cpend \ cpend'
     /\ \A c \in SetOf(E.cdone) : c.res = "ok"
-    /\ ObsOK(E) /\ Mark
+    /\ ObsOK(E) /\ E.err = "" /\ Mark
 
 TraceClose ==
     /\ Consume("Close") /\ Close(E.k, E.id, E.pfx)
     /\ last'.res = (CASE E.res = "ok" -> 1 [] E.res = "err" -> 0 [] E.res = "blocked" -> 2 [] OTHER -> 9)
-    /\ WokeOK(E) /\ ObsOK(E) /\ Mark
+    /\ WokeOK(E) /\ ObsOK(E) /\ E.err = "" /\ Mark
 
 TraceWriteBack ==
     /\ Consume("WriteBack") /\ WriteBack(E.item)
-    /\ E.wsrc = wire'.src /\ Mark
+    /\ E.wsrc = wire'.src /\ E.err = "" /\ Mark
 
 -----------------------------------------------------------------------------
 (* Lines from the real read loops. *)
